@@ -19,6 +19,7 @@ RULE = (
     "original; identical across rewrites; canon(json.loads(canon(S))) == canon(S); the canonical text parses and bytes "
     "written under S decode under it to the same value and vice versa for D_1 data. distinct_nontrivial = distinct schema "
     "texts canonicalised."
+    " Each variant is canonicalised raw and pre-parsed (short-lived parsed object); named types named after the specification's non-primitive keywords are included."
 )
 ASSUMPTIONS = [
     "reference canonicaliser mc/ref/canon.py anchored to Apache vectors (selftest) and to mc/ref/names.py",
